@@ -223,7 +223,16 @@ def scan_diff_key(ref, r):
     for k, v in copy_sources(r).items():
         srcs.setdefault(k, set()).update(v)
     upd = {(t[2], t[3]) for x in (ref, r) for t in x.tags if t[0] == b"scan" and len(t) >= 4 and t[1] == b"update"}
-    if (a ^ b) and all(srcs.get(c) and srcs[c] <= upd for c in a ^ b):
+    def roots(c_, depth=0):
+        # a copy can be a copy of a copy made in the same scan: what matters is the recorded file at the root of the chain
+        out = set()
+        for s_ in srcs.get(c_, ()):
+            if s_ in srcs and depth < 6 and s_ != c_:
+                out |= roots(s_, depth + 1)
+            else:
+                out.add(s_)
+        return out
+    if (a ^ b) and all(srcs.get(c) and roots(c) <= upd for c in a ^ b):
         return "scan-classification-depends-on-schedule:copy/source-updated-in-the-same-scan"
     return "scan-classification-depends-on-schedule:copy/unexplained"
 
